@@ -21,6 +21,7 @@ def handle (line : String) : String :=
   | "rekey" :: ts => c14Line "rekey" ts
   | "dq" :: ts => c17Line ts
   | "pipe" :: ts => pipeLine ts
+  | "pipespec" :: ts => pipeSpecLine ts
   | "inodec" :: ts => c20Line "inodec" ts
   | "windec" :: ts => c20Line "windec" ts
   | "deb" :: ts => c18Line ts
